@@ -12,6 +12,7 @@ import json
 import warnings
 
 import numpy as np
+from harness.props.c10_reread import reread_part
 
 # finding F3 (a child listed twice under one parent was accepted), repaired in the package: the entry
 # of known_findings.json is kind=fixed and suppresses nothing, so an implementation that accepts such a
@@ -1090,6 +1091,7 @@ def run(ctx):
     for i in range(ctx.n(200, 4000)):
         label_case(ctx, batch, rng, None, with_h5ad=(i % ctx.n(20, 10) == 0), idx=200000 + i)
     batch.flush()
+    reread_part(ctx)
 
 
 def replay(ctx, rec):
